@@ -60,6 +60,20 @@ def table() -> dict[str, Prop]:
              "children (idempotent); the fence renderer's scratch token owns a copy of the attrs (RWRITE)",
              [EF.rule_rwrite],
              not_decided="as_dict / from_dict / SyntaxTreeNode round trips (value-level equalities over runtime data)"))
+    from .rules import render_rules as RN, url_rules as UR
+    reg(Prop("C04", "escape discipline of the HTML renderer: every returned value is built from literals, escapeHtml(...) results, the "
+             "literal tag vocabulary and other render methods; raw pass-through only for the two html kinds, which are pushed only "
+             "under a true test of option html; tags and attribute names are literals; every empty-tag kind has a render rule",
+             [RN.rule_esc, RN.rule_raw, RN.rule_vocab, RN.rule_rendex],
+             assumptions=["the highlight callback returns trusted HTML (documented; excluded by the property's quantifier)"],
+             not_decided="global well-nestedness of the emitted tags (follows from the pairing discipline of C02, not shown here)"))
+    reg(Prop("C05", "every value reaching an href/src sink is normalizeLink(...) output on which validateLink(...) was tested true on "
+             "every path (or a constant, or an env reference entry written by such a sink); the facade delegates to the sanitizer; "
+             "the validator computes (not bad-scheme) or whitelisted-data-image on the lower-cased url; regex language facts of both patterns",
+             [UR.rule_url, UR.rule_urlre],
+             assumptions=["mdurl.encode yields percent-encoded URL-safe ASCII (third party)",
+                          "the regex facts are decided by handing the extracted *constant* pattern to the re engine; no repository code runs"],
+             not_decided="that a rejected destination is left as literal text (behaviour of the fallback path)"))
     return props
 
 
@@ -71,6 +85,10 @@ NOT_APPLICABLE["C06"] = ("a metamorphic relation between the parses of two diffe
                          "frames) are claimed under C07 and C17 instead")
 
 TECHNIQUE = {
+    "C04": "taint-style decomposition of renderer return values over reaching definitions; dominance of the html-option test "
+           "via predicate dataflow; literal-vocabulary check of all token construction sites",
+    "C05": "forward dataflow over per-function CFGs with a sanitizer lattice (Const/Env/NormChecked/NormUnchecked/Raw); "
+           "truth-table simulation of validateLink; regex-AST facts",
     "C12": "write-effect classification by inferred object type over the API-reachable call graph; alias/taint check of preset "
            "objects; import allow-list",
     "C13": "write-effect classification (no shared writes) plus a CFG reachability check that nothing mutates the chain cache "
